@@ -137,15 +137,18 @@ def check(item, tier):
                 lviol = []
 
                 class Listener(LRTDPEventListener):
-                    def end_of_lrtdp_timestep(self, lv):
-                        pass
-
-                    def end_of_lrtdp_trial(self, lv):
+                    def _look(self, lv, when):
                         me = lv['self']
                         for ls, v in me.res.V.items():
-                            if float(v) < float(V[mdp.s_of[ls]]) - 1e-9:
+                            if float(v) < float(V[mdp.s_of[ls]]) - 1e-9 * max(1.0, abs(float(V[mdp.s_of[ls]]))):
                                 lviol.append(('value_below_optimum_during_search', {'s': mdp.s_of[ls], 'value': float(v),
-                                                                                    'Vstar': V[mdp.s_of[ls]]}))
+                                                                                    'Vstar': V[mdp.s_of[ls]], 'when': when}))
+
+                    def end_of_lrtdp_timestep(self, lv):
+                        self._look(lv, 'timestep')      # after every backup of a trial, not only at its end
+
+                    def end_of_lrtdp_trial(self, lv):
+                        self._look(lv, 'trial')
 
                 reuse = (HEUR.index(hk) + int(rao)) % 2 == 0 and spec.n >= 3
 
